@@ -4,20 +4,22 @@
  * block managers.  The two threads are sequentialised: the producer thread's calls (set_flow_def, input, flush,
  * release) are the script OPS (discrete selector, enumerated by the driver); the callbacks that the two event loops
  * may run (consumer: queue worker, out-of-band worker; producer: push watcher, upstream out-of-band worker) are
- * scheduled SYMBOLICALLY: operation 6 opens a window of WIN scheduling steps, each of which runs one callback chosen
- * by the solver among those whose watcher is active and whose event descriptor is readable (or nothing).
+ * part of the script as well (operations 7-9: run that callback if its watcher is active and its event descriptor
+ * readable, as the event loop would; otherwise nothing happens).  A symbolic choice of the callback was tried and
+ * dropped: one symbolic scheduling step already gives no verdict in 600 s (the heap shapes of the branches merge).
  * Granularity: a callback / API call is one step (see DESIGN: the two threads share only the three uqueues, whose
  * own interleavings are C07 / C08's subject).
  * Environment models: eventfd(2) (a counter per descriptor: eventfd_read returns and resets it or fails with EAGAIN,
  * eventfd_write adds), close(2); the event loop is upump_mock.h (real upump_common.c on top).
  *   0 set_flow_def("block.")   1 set_flow_def("block.other.")   2 input(next buffer)   3 flush
  *   4 release the queue sink   5 release the application's reference on the queue source
- *   6 scheduling window (symbolic)   7 consumer worker   8 consumer oob   9 producer watcher   (7-9: if ready)
+ *   7 consumer worker   8 consumer oob   9 producer watcher   (7-9: if ready)
+ *   10 set_output(queue sink, S1)   11 set_output(queue sink, NULL)     (pseudo-output: only a reference is kept)
  * After the script both pipes are released (if not yet) and the loops run until nothing is ready. */
 #define ENV_WITH_UPUMP 1
 #define ENV_SINK_HOOKS 1
 #define ENV_MAXEV 48
-#define ENV_NSINKS 1
+#define ENV_NSINKS 2
 #include <errno.h>
 #include <unistd.h>
 #include <sys/eventfd.h>
@@ -80,9 +82,6 @@ static bool mdl_readable(int fd)
 #ifndef LEN
 #define LEN 1
 #endif
-#ifndef WIN
-#define WIN 2
-#endif
 #ifndef SETTLE
 #define SETTLE 12
 #endif
@@ -106,7 +105,7 @@ static void env_on_sink_flowdef(int sink, bool accepted, struct uref *flow_def)
 }
 static void env_on_sink_input(int sink, struct uref *uref)
 {
-    (void)sink;
+    VASSERT(sink == 0, "C06: buffers only reach the output of the queue source (the sink's pseudo-output gets nothing)");
     VASSERT(!qsrc_dead, "the queue source touches its output after throwing dead");
     VASSERT(env_count(QSRC, UPROBE_SOURCE_END) == 0, "C06: a buffer is delivered after end-of-source was signalled");
     VASSERT(delivered < n_sent, "C06: more buffers delivered than sent (duplication or invention)");
@@ -189,13 +188,11 @@ int main(void)
                     upipe_release(QSRC);
                 }
                 break;
-            case 6:
-                for (int s = 0; s < WIN; s++) {
-                    int c = nd_int();
-                    VASSUME(c >= 0 && c <= 4);
-                    if (c != 0)
-                        (void)run_cb(c);
-                }
+            case 10:        /* the queue sink's pseudo-output (a stored reference, nothing is sent to it) */
+                VASSERT(ubase_check(upipe_set_output(QSINK, &env_sinks[1].upipe)), "pseudo-output accepted");
+                break;
+            case 11:
+                VASSERT(ubase_check(upipe_set_output(QSINK, NULL)), "pseudo-output removed");
                 break;
             default:
                 (void)run_cb(ops[k] - 6);
@@ -226,6 +223,7 @@ int main(void)
     VASSERT(env_count(QSINK, UPROBE_DEAD) == 1 && env_count(QSRC, UPROBE_DEAD) == 1, "C01: both pipes die exactly once when the last reference goes");
     VASSERT(upump_mock_mgr_from_upump_mgr(env_upump_mgr)->live_pumps == 0, "C01: every watcher was freed");
     VASSERT(!env_sinks[0].dead && uatomic_load(&env_sinks[0].refcount.refcount) == 1, "C01: the queue source returned every reference on its output");
+    VASSERT(!env_sinks[1].dead && uatomic_load(&env_sinks[1].refcount.refcount) == 1, "C01: the queue sink returned exactly the references it took on its pseudo-output");
     env_sinks_done();
     upump_mgr_release(env_upump_mgr);
     env_done();
